@@ -1,3 +1,4 @@
 import Drv.Browser
 import Drv.Diag
 import Drv.Slice
+import Drv.Bonf
